@@ -1568,9 +1568,14 @@ func (s *Store) processLTXStreamFrame(ctx context.Context, frame *LTXStreamFrame
 	//
 	// We also hold the local WRITE lock so a local write cannot be in-progress.
 	//
-	// Files up to the position the lock was granted at are the ones the
-	// acquisition is still waiting for, they say nothing about the lock.
-	if haltLock := db.RemoteHaltLock(); haltLock != nil && hdr.MaxTXID > haltLock.Pos.TXID {
+	// Files up to the position the lock was granted at are the ones an
+	// acquisition in progress is still waiting for, they say nothing about the
+	// lock. Once the lock has been acquired nobody but this node extends the
+	// database while the lock is good, so any other file - also a snapshot of
+	// an earlier position from a new primary that is behind - means the lock
+	// is gone. It has to be cleared (and an interrupted local transaction
+	// rolled back) before the file is applied, not by a later release.
+	if haltLock := db.RemoteHaltLock(); haltLock != nil && (hdr.MaxTXID > haltLock.Pos.TXID || haltLock.acquired) {
 		TraceLog.Printf("[ProcessLTXStreamFrame.Unhalt(%s)]: replica holds HALT lock but received LTX file, unsetting HALT lock", db.Name())
 		if err := db.unsetRemoteHaltLock(ctx, haltLock.ID, true); err != nil {
 			return fmt.Errorf("release remote halt lock: %w", err)
